@@ -133,7 +133,7 @@ func (s *Sim) failf(prop, sig, format string, args ...any) {
 	if s.failed[prop] {
 		return
 	}
-	if s.res.BreakBypass > 0 && (prop == "C01" || prop == "C02") && !strings.HasSuffix(sig, ":dead-queue") {
+	if s.res.BreakBypass > 0 && (prop == "C01" || prop == "C02" || prop == "C04" || prop == "C05") && !strings.HasSuffix(sig, ":dead-queue") {
 		// known-finding class: a scripted "break" in front of an action that currently holds an earlier
 		// event of the stream overtakes the held event (no shipped plugin does this: split, the only
 		// one returning ActionBreak, flushes busy actions through Spawn first)
